@@ -104,19 +104,22 @@ func VsymC40_ReadOnly() {
 		}
 		return t
 	}
-	base := metadata.NewInMemoryStore(metadata.ClusterMetadata{Brokers: []protocol.MetadataBroker{{NodeID: 1, Host: "b", Port: 9092}}, ControllerID: 1, Topics: []protocol.MetadataTopic{mk("t", 2), mk("u", 1)}})
-	_ = base.UpdateOffsets(ctx, "t", 0, 41)
-	_ = base.CommitConsumerOffset(ctx, "g", "t", 0, 17, "m")
-	_ = base.PutConsumerGroup(ctx, &metadatapb.ConsumerGroup{GroupId: "g", State: "stable", GenerationId: 3, Members: map[string]*metadatapb.GroupMember{"m1": {}}})
-	_ = base.UpdateTopicConfig(ctx, &metadatapb.TopicConfig{Name: "t", Partitions: 2, RetentionMs: 1234})
+	build := func() *metadata.InMemoryStore {
+		st := metadata.NewInMemoryStore(metadata.ClusterMetadata{Brokers: []protocol.MetadataBroker{{NodeID: 1, Host: "b", Port: 9092}}, ControllerID: 1, Topics: []protocol.MetadataTopic{mk("t", 2), mk("u", 1)}})
+		_ = st.UpdateOffsets(ctx, "t", 0, 41)
+		_ = st.CommitConsumerOffset(ctx, "g", "t", 0, 17, "m")
+		_ = st.PutConsumerGroup(ctx, &metadatapb.ConsumerGroup{GroupId: "g", State: "stable", GenerationId: 3, Members: map[string]*metadatapb.GroupMember{"m1": {}}})
+		_ = st.PutConsumerGroup(ctx, &metadatapb.ConsumerGroup{GroupId: "d", State: "dead", GenerationId: 9})
+		_ = st.PutConsumerGroup(ctx, &metadatapb.ConsumerGroup{GroupId: "e", State: "empty", GenerationId: 2})
+		_ = st.UpdateTopicConfig(ctx, &metadatapb.TopicConfig{Name: "t", Partitions: 2, RetentionMs: 1234})
+		return st
+	}
+	base, control := build(), build() // control: the same store, never shown to a tool
 	mon := &vsymMonStore40{InMemoryStore: base}
 	opts := Options{Store: mon}
 	before := vsymC40Fingerprint(base)
 	mon.mutations = nil
-	group := vsymC40Names[vsym_Choose("group", len(vsymC40Names))]
-	if group == "t" {
-		group = "g"
-	}
+	group := []string{"", "g", "d", "e", "ghost"}[vsym_Choose("group", 5)]
 	var err error
 	switch vsym_Param("tool") {
 	case 0:
@@ -143,6 +146,23 @@ func VsymC40_ReadOnly() {
 	}
 	vsym_Assert(len(mon.mutations) == 0, "C40/tool-calls-no-mutating-store-method")
 	vsym_Assert(vsymC40Fingerprint(base) == before, "C40/store-contents-unchanged")
+	// hidden state: the inspected store must go on behaving like the control store. The cluster
+	// snapshot then changes (u grows to 3 partitions, a new topic v appears) and both are read.
+	next := metadata.ClusterMetadata{Brokers: []protocol.MetadataBroker{{NodeID: 1, Host: "b", Port: 9092}}, ControllerID: 1, Topics: []protocol.MetadataTopic{mk("t", 2), mk("u", 3), mk("v", 1)}}
+	base.Update(next)
+	control.Update(next)
+	vsym_Assert(vsymC40Fingerprint(base) == vsymC40Fingerprint(control), "C40/inspected-store-behaves-like-an-uninspected-one")
+	for _, name := range []string{"t", "u", "v"} {
+		a, errA := base.FetchTopicConfig(ctx, name)
+		b, errB := control.FetchTopicConfig(ctx, name)
+		vsym_Assert((errA == nil) == (errB == nil), "C40/inspected-store-behaves-like-an-uninspected-one")
+		if errA == nil && errB == nil {
+			vsym_Assert(a.Partitions == b.Partitions && a.ReplicationFactor == b.ReplicationFactor && a.RetentionMs == b.RetentionMs, "C40/inspected-store-behaves-like-an-uninspected-one")
+		}
+	}
+	ga, _ := base.ListConsumerGroups(ctx)
+	gb, _ := control.ListConsumerGroups(ctx)
+	vsym_Assert(len(ga) == len(gb), "C40/inspected-store-behaves-like-an-uninspected-one")
 }
 
 func VsymC40_Twin() {
